@@ -767,83 +767,13 @@ def lines_rule(rep, F):
 
 
 def map_rule(rep, F):
-    """R19.4: map_coords rebuilds the same shape from f applied to the parts in traversal order; try_map_coords agrees with it on its Ok path and
-    propagates the first Err; the simple in-place variants store f(part) into the same part."""
-    from ..symex import bare
-    rep.rule("R19.4", "map_coords: same constructor, parts mapped in traversal order (Point f(c); Line start,end; LineString all points; Polygon exterior then interiors; Multi*/collection every "
-                      "member; Triangle 0,1,2; Rect min,max); try_map_coords = the same term under Ok with Err propagated; members are mapped with the same f")
-    MC = "geo::algorithm::map_coords::MapCoords"
-    want = {
-        "point::Point": r"^Point::Point\(call\(a2, \(a1\.0\)\)\)$",
-        "line::Line": r"^new\(map_coords\(start_point\(a1\), a2\)\.0, map_coords\(end_point\(a1\), a2\)\.0\)$",
-        "line_string::LineString": r"^from\(collect\(map\(points\(a1\), closure\[a2\]\)\)\)$",
-        "polygon::Polygon": r"^new\(map_coords\(exterior\(a1\), a2\), collect\(map\(iter\(interiors\(a1\)\), closure\[a2\]\)\)\)$",
-        "multi_point::MultiPoint": r"^new\(collect\(map\(iter\(a1(\.0)?\), closure\[a2\]\)\)\)$",
-        "multi_line_string::MultiLineString": r"^new\(collect\(map\(iter\(a1(\.0)?\), closure\[a2\]\)\)\)$",
-        "multi_polygon::MultiPolygon": r"^new\(collect\(map\(iter\(a1(\.0)?\), closure\[a2\]\)\)\)$",
-        "geometry_collection::GeometryCollection": r"^new_from\(collect\(map\(iter\(a1(\.0)?\), closure\[a2\]\)\)\)$",
-        "rect::Rect": r"^new\(call\(a2, \(min\(a1\)\)\), call\(a2, \(max\(a1\)\)\)\)$",
-        "triangle::Triangle": r"^new\(call\(a2, \(a1\.0\)\), call\(a2, \(a1\.1\)\), call\(a2, \(a1\.2\)\)\)$",
-    }
-
-    def untry(s):
-        prev = None
-        while prev != s:
-            prev = s
-            s = re.sub(r"\(((?:[^()]|\((?:[^()]|\((?:[^()]|\((?:[^()]|\([^()]*\))*\))*\))*\))*) as Ok\)\.0", r"\1", s)
-        return s.replace("try_map_coords(", "map_coords(")
-    n = 0
-    for ty, pat in want.items():
-        name = ty.split("::")[-1]
-        try:
-            fn = F.impl_method(MC, r"^%s%s<T>$" % (GT, ty), None, "map_coords", crates=("geo",))
-            ps = _rets(F, fn)
-            ft = F.impl_method(MC, r"^%s%s<T>$" % (GT, ty), None, "try_map_coords", crates=("geo",))
-            pt = _rets(F, ft)
-        except (KeyError, Unanalysable) as e:
-            rep.bad("R19.4", "map_coords:%s:anchor" % name, str(e))
-            continue
-        n += 1
-        got = [bare(p.ret) for p in ps]
-        cls = [bare(q.ret) for c in F.closures_of(fn) for q in _rets(F, c)]
-        if len(got) == 1 and re.match(pat, got[0]) and all(x == "map_coords(a2, a1.0)" for x in cls):
-            rep.ok("R19.4", "map_coords:" + name)
-        else:
-            rep.bad("R19.4", "map_coords:" + name, "map_coords is %s (member closure %s): not the shape-preserving rebuild in traversal order" % (got[:2], cls[:1]), where=fn.loc())
-            continue
-        oks = [bare(p.ret) for p in pt if bare(p.ret).startswith("Result::Ok(")]
-        errs = [bare(p.ret) for p in pt if bare(p.ret).startswith("Result::Err(")]
-        other = [bare(p.ret) for p in pt if not bare(p.ret).startswith("Result::")]
-        tcls = [bare(q.ret) for c in F.closures_of(ft) for q in _rets(F, c)]
-        if len(oks) == 1 and untry(oks[0]).replace("iter(a1.0)", "iter(a1)") == "Result::Ok(%s)" % got[0].replace("iter(a1.0)", "iter(a1)") and not other and errs and all(x == "try_map_coords(a2, a1.0)" for x in tcls):
-            rep.ok("R19.4", "try_map_coords:" + name)
-        else:
-            rep.bad("R19.4", "try_map_coords:" + name, "the Ok result of try_map_coords is %s, which is not map_coords' result %s with every step made fallible%s" % (
-                [untry(x)[:120] for x in oks[:1]], got[0][:120], "; no Err exit" if not errs else ""), where=ft.loc())
-    rep.floor("R19.4", "MapCoords impls", n, 10)
-    # in place, the loop-free types: the stored value of each part is f(that part)
-    MI = "geo::algorithm::map_coords::MapCoordsInPlace"
-    parts = {"point::Point": ["0"], "line::Line": ["start", "end"], "triangle::Triangle": ["0", "1", "2"]}
-    for ty, fields in parts.items():
-        name = ty.split("::")[-1]
-        try:
-            fn = F.impl_method(MI, r"^%s%s<T>$" % (GT, ty), None, "map_coords_in_place", crates=("geo",))
-            ex = opaque(F, loop_bound=1)
-            ps = [p for p in ex.run(fn) if p.kind == "ret"]
-            good = len(ps) == 1
-            if good:
-                st = ps[0].st
-                base = st.mem.get(("S", ("arg", 1)))
-                val = bare(ex.canon(st, base)) if base is not None else ""
-                for f_ in fields:
-                    if "call(a2, (a1.%s))" % f_ not in val:
-                        good = False
-            if good:
-                rep.ok("R19.4", "map_coords_in_place:" + name)
-            else:
-                rep.bad("R19.4", "map_coords_in_place:" + name, "after map_coords_in_place the value is %s; expected every part replaced by f(that part)" % (val[:160] if ps else "?"), where=fn.loc())
-        except (KeyError, Unanalysable) as e:
-            rep.bad("R19.4", "map_coords_in_place:%s:anchor" % name, str(e))
+    """R19.4: map_coords / try_map_coords / map_coords_in_place / try_map_coords_in_place of every geometry type on concrete shapes with an
+    abstract coordinate function (tables shared with C13 R13.10): the result is the shape with every coordinate c replaced by f(c), parts in
+    traversal order; the try_ forms agree on the all-Ok run, return f's error otherwise and call f no more after it failed.
+    (An earlier form of this rule matched the shape of the result TERM - `new(collect(map(iter(..))))` - and alarmed on behaviour-preserving
+    rewrites of these impls as loops or with the helper inlined; the tables decide the same clause on the values.)"""
+    from . import mapcoords
+    mapcoords.run(rep, F, "R19.4")
 
 
 def error_discipline(rep, F):
